@@ -25,6 +25,9 @@ RULE = ("hist: a random history (4-33 ops) of deliveries, raw HTTP requests (7 p
         "k-th/latest/never-issued ids, right and wrong methods, PATCH bodies (seen true / false / not JSON / empty, each framed with Content-Length, chunked or sent as HTTP/1.0, "
         "with and without unrelated headers — framing and such headers must not matter), attachment numbers) and calls of every method of "
         "pkg/rest/client, run on the memory and the file store, local/full naming, with and without a base path. "
+        "A further stream makes message content unavailable — the content file vanishes (file store), or another client's removal "
+        "completes between the manager's look-up and its open (a wrapper around the Store the manager sees) — and asks for the message "
+        "through every endpoint: any well-formed answer is accepted there, a dropped connection (handler panic) is not. "
         "distinct = distinct input line; non-trivial = the history has at least one delivery and one request or client call "
         "that is answered 200.")
 TRUSTED = [
@@ -37,6 +40,8 @@ TRUSTED = [
     "Model/StoreSpec.v is the store (both back-ends refine it: property C07)",
 ]
 ASSUMPTIONS = [
+    "client_op_effect / client_convenience_effect: the content of every stored message can be opened (srcok = true everywhere); the "
+    "handler theorems (handler_total, missing_is_404, api_reflects_store, content_gone_is_500) hold for every environment srcok",
     "ids issued by a back-end contain only characters that need no URL escaping and are not '.', '..' (mem: decimal, file: timestamp-counter)",
     "canonical mailbox names are fixed points of the naming function (C04) where a theorem says [mfa mb = Some mb]",
     "client_convenience_effect assumes the store invariant SInv (handles unique and increasing within a mailbox; holds in every reachable store: Proofs/StoreSpecFacts.v, C07)",
